@@ -15,6 +15,8 @@ import traceback
 from collections import Counter
 
 ROOT = os.path.dirname(os.path.dirname(os.path.abspath(__file__)))
+# evidence and replay files go to ROOT unless a sensitivity run redirects them
+OUT = os.environ.get('VERIF_OUT') or ROOT
 NPROC = int(os.environ.get('VERIF_NPROC', '16'))
 
 
@@ -239,6 +241,73 @@ def _worker(args):
         return dict(fatal=''.join(traceback.format_exception(ex)))
 
 
+def _child(conn, args):
+    """Body of one forked worker: memory cap, run the task, send the result."""
+    try:
+        import resource
+        cap = int(os.environ.get('VERIF_MEM_MB', '6000')) * 1024 * 1024
+        resource.setrlimit(resource.RLIMIT_AS, (cap, cap))
+    except Exception:  # noqa: BLE001
+        pass
+    try:
+        res = _worker(args)
+    except BaseException as ex:  # noqa: BLE001
+        res = dict(fatal=''.join(traceback.format_exception(ex)))
+    try:
+        conn.send(res)
+    except BaseException as ex:  # noqa: BLE001
+        try:
+            conn.send(dict(fatal='cannot send result: %r' % (ex,)))
+        except BaseException:  # noqa: BLE001
+            pass
+    conn.close()
+    os._exit(0)
+
+
+def _schedule(tasks, total, fatal, tier):
+    """Runs every task in its own forked process, at most NPROC at a time.  A worker that dies
+    (killed, out of memory) or exceeds the watchdog is reported, it never hangs the run."""
+    from multiprocessing.connection import wait
+    ctx = mp.get_context('fork')
+    limit = float(os.environ.get('VERIF_TASK_TIMEOUT', '1500' if tier == 'quick' else '21600'))
+    pending = list(tasks)[::-1]
+    running = {}
+    while pending or running:
+        while pending and len(running) < NPROC:
+            args = pending.pop()
+            rd, wr = ctx.Pipe(duplex=False)
+            proc = ctx.Process(target=_child, args=(wr, args))
+            proc.start()
+            wr.close()
+            running[rd] = (proc, args, time.time())
+        ready = wait(list(running), timeout=5.0)
+        for rd in ready:
+            proc, args, _t = running.pop(rd)
+            try:
+                part = rd.recv()
+            except (EOFError, OSError):
+                proc.join(5)
+                fatal.append('worker for phase %d shard %d died without a result (exit code %r; killed or out of '
+                             'memory)' % (args[3], args[4], proc.exitcode))
+                rd.close()
+                continue
+            rd.close()
+            proc.join(30)
+            if 'fatal' in part:
+                fatal.append(part['fatal'])
+            else:
+                _merge(total, part)
+        now = time.time()
+        for rd, (proc, args, t_start) in list(running.items()):
+            if now - t_start > limit:
+                proc.kill()
+                proc.join(5)
+                running.pop(rd)
+                rd.close()
+                fatal.append('worker for phase %d shard %d exceeded the watchdog of %.0f s and was stopped '
+                             '(inconclusive, not a violation)' % (args[3], args[4], limit))
+
+
 def _merge(total, part):
     total.evaluations += part['evaluations']
     total.nontrivial |= part['nontrivial']
@@ -266,12 +335,12 @@ def _merge(total, part):
 
 
 def write_replay(prop, sig, msg, case):
-    d = os.path.join(ROOT, 'replays')
+    d = os.path.join(OUT, 'replays')
     os.makedirs(d, exist_ok=True)
     path = os.path.join(d, '%s-%s.json' % (prop, case_hash([sig, case])))
     with open(path, 'w') as f:
         json.dump(dict(property=prop, signature=sig, message=msg, case=case), f, indent=1, sort_keys=True)
-    return os.path.relpath(path, ROOT)
+    return os.path.relpath(path, OUT) if OUT == ROOT else path
 
 
 def run_replay(mod, path):
@@ -335,14 +404,7 @@ def main(modname, tier, seed):
         for s in range(nsh):
             tasks.append((modname, tier, seed, i, s, nsh))
     fatal = []
-    if tasks:
-        ctx = mp.get_context('fork')
-        with ctx.Pool(NPROC, maxtasksperchild=None) as pool:
-            for part in pool.imap_unordered(_worker, tasks, chunksize=1):
-                if 'fatal' in part:
-                    fatal.append(part['fatal'])
-                else:
-                    _merge(total, part)
+    _schedule(tasks, total, fatal, tier)
     wall = time.time() - t0
     # 3. report
     rc = 0
@@ -395,8 +457,8 @@ def main(modname, tier, seed):
     ev = dict(property_id=prop, tier=tier, seed=seed, level=getattr(mod, 'LEVEL', 'exploration'),
               coverage=cov, assumptions=list(getattr(mod, 'ASSUMPTIONS', [])), wall_s=round(wall, 2),
               violations=len(by_sig))
-    os.makedirs(os.path.join(ROOT, 'evidence'), exist_ok=True)
-    with open(os.path.join(ROOT, 'evidence', prop + '.json'), 'w') as f:
+    os.makedirs(os.path.join(OUT, 'evidence'), exist_ok=True)
+    with open(os.path.join(OUT, 'evidence', prop + '.json'), 'w') as f:
         json.dump(ev, f, indent=1, sort_keys=True, default=str)
         f.write('\n')
     print('%s tier=%s seed=%d evaluations=%d distinct_nontrivial=%d refused=%d violations=%d wall=%.1fs'
